@@ -42,6 +42,7 @@ fn trait_name(chain: &str) -> &'static str {
         "plain" => "Ledger",
         "async" => "ALedger",
         "objs" => "OLedger",
+        "bounds" => "BLedger",
         _ => "ArgInterfaceV2",
     }
 }
@@ -225,7 +226,7 @@ fn exec(h: &History, revs: &[Rev]) -> HistOut {
 
 fn gen_history(seed: u64, revs: &[Rev], thorough: bool) -> History {
     let mut rng = Rng::new(seed);
-    let chain = *rng.pick(&["plain", "plain", "async", "objs", "objs", "argv2"]);
+    let chain = *rng.pick(&["plain", "plain", "async", "objs", "objs", "argv2", "bounds"]);
     let members: Vec<&Rev> = revs.iter().filter(|r| r.chain == chain).collect();
     let good: Vec<&&Rev> = members.iter().filter(|r| !r.name.contains("_b_")).collect();
     let n = rng.range(1, 6);
@@ -362,7 +363,7 @@ fn fixed_or_seeded(i: u64, seed: u64, revs: &[Rev], thorough: bool) -> History {
     for name in ["argv2", "argv2_next", "argv2_b_enum_arg"] {
         fixed.push(History { chain: "argv2".into(), start: "earlier-build".into(), runs: vec![name.into(), name.into(), "argv2".into()], fresh_process: false, seed: 0 });
     }
-    for chain in ["plain", "async", "objs", "argv2"] {
+    for chain in ["plain", "async", "objs", "argv2", "bounds"] {
         let m: Vec<&Rev> = revs.iter().filter(|r| r.chain == chain).collect();
         for a in &m {
             for b in &m {
